@@ -88,6 +88,10 @@ func mutations() []mutation {
 		{name: "identity.type=other", identity: true, apply: func(e *entry.Entry, w *Adv) { e.Identity.Type = "other" }},
 		{name: "hash=other-valid-cid", hashOnly: true, apply: func(e *entry.Entry, w *Adv) { e.Hash = w.SA.Address().GetRoot() }},
 		{name: "hash=undefined", hashOnly: true, apply: func(e *entry.Entry, w *Adv) { e.Hash = cid.Undef }},
+		// aliases of the genuine address: same digest, another codec / CID version (the content does not hash to them)
+		{name: "hash=alias-raw-codec", hashOnly: true, apply: func(e *entry.Entry, w *Adv) { e.Hash = cid.NewCidV1(cid.Raw, e.Hash.Hash()) }},
+		{name: "hash=alias-dagpb-codec", hashOnly: true, apply: func(e *entry.Entry, w *Adv) { e.Hash = cid.NewCidV1(cid.DagProtobuf, e.Hash.Hash()) }},
+		{name: "hash=alias-cidv0", hashOnly: true, apply: func(e *entry.Entry, w *Adv) { e.Hash = cid.NewCidV0(e.Hash.Hash()) }},
 	}
 	return m
 }
@@ -111,8 +115,11 @@ func c04Cases() []c04Case {
 	for _, t := range []string{"root", "chain", "merge"} {
 		for i, m := range ms {
 			for _, d := range []string{"original-hash", "recomputed-hash", "ancestor"} {
-				if m.hashOnly && d != "original-hash" {
+				if m.hashOnly && d == "recomputed-hash" {
 					continue
+				}
+				if m.hashOnly && d == "ancestor" && !strings.HasPrefix(m.name, "hash=alias") {
+					continue // a link to some other block or to nothing is not a link to this entry
 				}
 				for _, r := range []string{"sync", "topic", "direct"} {
 					if d == "ancestor" && r != "sync" {
@@ -172,6 +179,11 @@ func runC04Case(c c04Case) (string, []explore.Violation) {
 		// claimed hash stays that of the genuine entry (or is itself the mutated field): content no longer matches
 		misaddressed = true
 	case "recomputed-hash", "ancestor":
+		if m.hashOnly {
+			// an alias address reached through a link: the bytes behind it are the genuine entry's
+			misaddressed = true
+			break
+		}
 		if err := Rehash(w.N.Peer.API(), mut); err != nil {
 			return "skipped: mutant cannot be encoded (" + firstLine(err.Error()) + ")", nil
 		}
@@ -330,7 +342,7 @@ func fieldOf(mutName string) string {
 func init() {
 	explore.Register(&explore.CheckDef{
 		ID: "C04", Level: "exploration",
-		Rule:   "full cross product on fresh worlds: valid entry {root, chain member with refs, merge entry with two nexts} x 29 single-field mutations of its wire form (payload, clock time x4, clock id x2, next x3, refs, key x3, signature x3, log id x2, v x2, identity fields x6, claimed hash x2) x delivery {announced with the original claimed hash, announced with recomputed hash, stored as a block and referenced as ancestor by an authorised colluder's valid head} x route {sync, topic, direct channel} x victim pre-state {empty, already holds the valid entries}. The harness classifies each mutant independently (content does not hash to the claimed address; the dependency's signature verification over the mutated content fails; log id differs); mutants in a class must be absent from log and view and the held entries and view unchanged; mutants in no class (identity-block mutations, judged by C03) are recorded only. Plus: the genuine head of another database of the same writer with a history of 1, 2, 3, 5 entries x route x pre-state; no foreign entry may be exposed. Non-trivial = judged mutants.",
+		Rule:   "full cross product on fresh worlds: valid entry {root, chain member with refs, merge entry with two nexts} x 32 single-field mutations of its wire form (payload, clock time x4, clock id x2, next x3, refs, key x3, signature x3, log id x2, v x2, identity fields x6, claimed hash x5 incl. same-digest aliases with another codec or CID version) x delivery {announced with the original claimed hash, announced with recomputed hash, stored as a block and referenced as ancestor by an authorised colluder's valid head} x route {sync, topic, direct channel} x victim pre-state {empty, already holds the valid entries}. The harness classifies each mutant independently (content does not hash to the claimed address; the dependency's signature verification over the mutated content fails; log id differs); mutants in a class must be absent from log and view and the held entries and view unchanged; mutants in no class (identity-block mutations, judged by C03) are recorded only. Plus: the genuine head of another database of the same writer with a history of 1, 2, 3, 5 entries x route x pre-state; no foreign entry may be exposed. Non-trivial = judged mutants.",
 		Units:  func(tier string) []explore.Unit { return explore.ChunkUnits("c04", 16) },
 		Budget: func(tier string) float64 { return 400 },
 		RunUnit: func(c *explore.Ctx) {
